@@ -104,6 +104,59 @@ class LineCoverage:
         return out
 
 
+_shared = None
+
+
+def shared_coverage():
+    """The one LineCoverage of this worker process (started by vf.worker before the property module runs; forked
+    children report the lines they were first to reach back through vf.props.c18.fork_run)."""
+    global _shared
+    if _shared is None:
+        _shared = LineCoverage()
+        _shared.start()
+    return _shared
+
+
+def statement_map():
+    """{basename: {function qualname-ish: set(statement lines)}} of the repo's package (tests excluded), from the AST.
+    Docstring expressions are left out (they never produce a LINE event)."""
+    import ast
+    out = {}
+    pkg = os.path.join(repo_dir(), "jsonschema")
+    for name in sorted(os.listdir(pkg)):
+        if not name.endswith(".py"):
+            continue
+        with open(os.path.join(pkg, name)) as f:
+            tree = ast.parse(f.read())
+        funcs = {}
+
+        def visit(node, qual):
+            for child in ast.iter_child_nodes(node):
+                if isinstance(child, (ast.FunctionDef, ast.AsyncFunctionDef)):
+                    q = (qual + "." if qual else "") + child.name
+                    lines = set()
+                    for st in ast.walk(child):
+                        if isinstance(st, ast.stmt) and st is not child and not isinstance(st, (ast.FunctionDef, ast.AsyncFunctionDef, ast.ClassDef)):
+                            if isinstance(st, ast.Expr) and isinstance(st.value, ast.Constant) and isinstance(st.value.value, str):
+                                continue
+                            lines.add(st.lineno)
+                    # statements of nested functions belong to the nested function
+                    for sub in ast.walk(child):
+                        if sub is not child and isinstance(sub, (ast.FunctionDef, ast.AsyncFunctionDef)):
+                            for st in ast.walk(sub):
+                                if isinstance(st, ast.stmt) and st is not sub:
+                                    lines.discard(st.lineno)
+                    funcs[q] = lines
+                    visit(child, q)
+                elif isinstance(child, ast.ClassDef):
+                    visit(child, (qual + "." if qual else "") + child.name)
+                else:
+                    visit(child, qual)
+        visit(tree, "")
+        out[name] = funcs
+    return out
+
+
 def region_lines(basename, funcname):
     """Statement lines of `funcname` in the repo file, grouped by an AST
     pattern so that must-reach regions survive line-number edits.
